@@ -51,8 +51,9 @@ Proof. exact convert_shape. Qed.
 
 (* integer formats: the chosen Rust type has exactly the range of the format *)
 Theorem C05F_int_format_range_exact :
-  forall f r, assoc f int_format_type = Some r ->
-    exists lo hi nz, int_range_u r = Some (lo, hi, nz) /\ int_format_range f = Some (lo, hi).
+  forall r, In r int_rows ->
+    exists hi nz, int_range_u (ir_ty r) = Some (ir_lo r, hi, nz) /\
+                  int_format_range (ir_fmt r) = Some (ir_lo r, hi).
 Proof. exact int_format_range_exact. Qed.
 
 (* ------------------------------------------------------------------ non-vacuity
